@@ -4,7 +4,7 @@ import engine
 d=json.load(open(sys.argv[1]))
 def show(c):
     for pn,g in c['lib']:
-        print('---',pn); print(engine.emit_pipeline(g)[0])
+        print('---',pn); print(engine.emit_pipeline(g, c.get('flow') if 'c' in dir() else False)[0])
     print({k:c.get(k) for k in ('groups','success','failure','jit')}, 'dict_in' , c.get('dict_in'))
 c=d['case']; show(c)
 o=d['impl_observation']
